@@ -1,5 +1,5 @@
 (* C03: evaluation of the handler model and of the clocked runner on recorded probes. *)
-From CJ Require Import Common.Base C04.Model C04.Run C03.Model.
+From CJ Require Import Common.Base C04.Model C04.Run C03.Model C03.StatsModel C03.ConnModel.
 Local Open Scope nat_scope.
 
 Record probe_case := {
@@ -58,3 +58,135 @@ Section WithTable.
      else presents_tagb (reveal_of stream (k_revs k)) (mark_of (k_marks k)) tbl
                         (map mk_reg (k_regs k)) (stream_of (heard (q_D q) script))).
 End WithTable.
+
+(* ------------------------------------------------------------------ fourth wave: addresses *)
+
+(* the address objects of a probe, and whether the handler was seen to return at once (no deadline
+   set, no Read) *)
+Record probe_addr := {
+  pa_peer : raddr;
+  pa_phantom : bytes;
+  pa_at_once : bool
+}.
+
+Definition geo_cc_const (ip : bytes) : option bytes := Some [85; 83]%N.   (* the main lane's GeoIP stand-in: "US" *)
+Definition geo_asn_const (ip : bytes) : option N := Some 64500%N.
+
+Definition chk3a (tbl : list pfx) (qa : probe_case * probe_addr) : bool :=
+  let '(q, a) := qa in
+  match conn_entry geo_cc_const geo_asn_const (pa_peer a) (pa_phantom a) with
+  | EReject => pa_at_once a                      (* not an IP peer address: the handler returns before anything else *)
+  | EAccept _ => negb (pa_at_once a) && chk3 tbl q
+  end.
+
+(* ------------------------------------------------------------------ fourth wave: histories *)
+
+Local Open Scope Z_scope.
+
+Definition flat (c : counts) : list Z :=
+  map (n_state c) all_states ++ map (n_out c) all_outcomes ++ map (n_tr c) all_trans ++
+  [n_total c; n_new c; n_resolved c].
+
+Fixpoint zlist_eqb (a b : list Z) : bool :=
+  match a, b with
+  | [], [] => true
+  | x :: a', y :: b' => (x =? y) && zlist_eqb a' b'
+  | _, _ => false
+  end.
+
+Definition obs_entry := (N * bytes * list Z)%type.
+Definition snapshot := (list Z * list Z * list obs_entry * list obs_entry)%type.
+
+Definition map_matches (m : asnmap) (obs : list obs_entry) : bool :=
+  (length m =? length obs)%nat &&
+  forallb (fun e => let '(asn, cc, l) := e in
+                    match amap_find asn m with
+                    | Some (cc', c) => bytes_eqb cc cc' && zlist_eqb (flat c) l
+                    | None => false
+                    end) obs.
+
+Definition snap_matches (s : cstats) (sn : snapshot) : bool :=
+  let '(v4, v6, m4, m6) := sn in
+  zlist_eqb (flat (s_v4 s)) v4 && zlist_eqb (flat (s_v6 s)) v6 && map_matches (s_map4 s) m4 && map_matches (s_map6 s) m6.
+
+(* hammer histories: only what no epoch can change - the state counters *)
+Definition states_match (s : cstats) (sn : snapshot) : bool :=
+  let '(v4, v6, _, _) := sn in
+  zlist_eqb (map (n_state (s_v4 s)) all_states) (firstn 4 v4) &&
+  zlist_eqb (map (n_state (s_v6 s)) all_states) (firstn 4 v6).
+
+Inductive hrec :=
+| ROpen (c : N) (asn : N) (cc : bytes) (v4 : bool) (tracked nts : N)
+| RRead (c : N) (n : N) (calls : list (N * N))   (* transport number, answer: 0 again, 1 not, 2 found, 3 another error *)
+| RErr (c : N) (kind : N)                        (* 0 timeout, 1 eof / closed, 2 reset, 3 other *)
+| REpoch (sn : snapshot).
+
+Record hist_case := {
+  hc_events : list hrec;
+  hc_final : snapshot;
+  hc_exact : bool       (* epochs at quiescent points: every snapshot is compared in full *)
+}.
+
+Definition rem_tab := list (N * list N).
+Fixpoint rem_find (c : N) (r : rem_tab) : list N :=
+  match r with [] => [] | (c0, l) :: r' => if (c0 =? c)%N then l else rem_find c r' end.
+Fixpoint rem_set (c : N) (l : list N) (r : rem_tab) : rem_tab :=
+  match r with
+  | [] => [(c, l)]
+  | (c0, l0) :: r' => if (c0 =? c)%N then (c0, l) :: r' else (c0, l0) :: rem_set c l r'
+  end.
+
+(* what the transports' answers of one loop iteration amount to *)
+Fixpoint iter_of_calls (rem : list N) (calls : list (N * N)) : iter_out * list N :=
+  match calls with
+  | [] => (match rem with [] => IExhausted | _ => IMore end, rem)
+  | (t, a) :: cs =>
+    if (a =? 2)%N then (IFound, rem)
+    else if (a =? 3)%N then (IError, rem)
+    else if (a =? 1)%N then iter_of_calls (filter (fun x => negb (x =? t)%N) rem) cs
+    else iter_of_calls rem cs
+  end.
+
+Definition rkind_of (k : N) : rkind :=
+  if (k =? 0)%N then KTimeout else if (k =? 1)%N then KClosed else if (k =? 2)%N then KReset else KOther.
+
+Fixpoint nseq (n : nat) : list N := match n with O => [] | S m => nseq m ++ [N.of_nat m] end.
+
+Fixpoint replay (exact : bool) (s : cstats) (tb : conn_tab) (rem : rem_tab) (evs : list hrec) : option cstats :=
+  match evs with
+  | [] => Some s
+  | e :: evs' =>
+    match e with
+    | REpoch sn =>
+      if negb exact || snap_matches s sn
+      then match run_ops code_guards s [SReset] with Ok s' => replay exact s' tb rem evs' | _ => None end
+      else None
+    | ROpen c asn cc v4 tracked nts =>
+      let g := GOpen c {| k_asn := asn; k_cc := cc; k_v4 := v4 |} (tracked <? 1)%N (nts <? 1)%N in
+      let '(ops, tb') := gev_ops tb g in
+      match run_ops code_guards s ops with
+      | Ok s' => replay exact s' tb' (rem_set c (nseq (N.to_nat nts)) rem) evs'
+      | _ => None
+      end
+    | RRead c n calls =>
+      let '(o, rem') := iter_of_calls (rem_find c rem) calls in
+      let '(ops, tb') := gev_ops tb (GEv c (HRead n o)) in
+      match run_ops code_guards s ops with
+      | Ok s' => replay exact s' tb' (rem_set c rem' rem) evs'
+      | _ => None
+      end
+    | RErr c k =>
+      let '(ops, tb') := gev_ops tb (GEv c (HReadErr (rkind_of k))) in
+      match run_ops code_guards s ops with
+      | Ok s' => replay exact s' tb' rem evs'
+      | _ => None
+      end
+    end
+  end.
+
+Definition chk_hist (h : hist_case) : bool :=
+  (* in a hammer history the epochs are not in the log: the model runs without them *)
+  match replay (hc_exact h) init_stats [] [] (hc_events h) with
+  | Some s => if hc_exact h then snap_matches s (hc_final h) else states_match s (hc_final h)
+  | None => false
+  end.
